@@ -121,7 +121,9 @@ func genC17Val(t *rapid.T, maxBytes int) c17Val {
 			v.B = []byte{0, 0xff, '\n', 0x80, 0}
 		}
 	case "time":
-		v.I = rapid.Int64Range(-62135596800, 253402300799).Draw(t, "sec")
+		// years 1..9999 in the time's own zone: the wire format is RFC 3339, which has four-digit years
+		// (time.Time's own MarshalText refuses anything else), so the range stays 14 h inside both ends
+		v.I = rapid.Int64Range(-62135596800+14*3600, 253402300799-14*3600).Draw(t, "sec")
 		v.U = uint64(rapid.Int64Range(0, 999999999).Draw(t, "nsec"))
 		v.F = float64(rapid.IntRange(-14*60, 14*60).Draw(t, "offmin"))
 	}
